@@ -35,7 +35,7 @@ type cfgSub struct {
 	// topicGen / dlGen: which incarnation of the (re-usable) topic name the subscription is
 	// bound to; a deleted topic, or a later topic of the same name, is not it
 	topicGen, dlGen int
-	push      string
+	push            string
 }
 
 type cfgRun struct {
